@@ -470,12 +470,64 @@ def rule_c(ctx: Context, R: Reporter, cc: ClassInfo, v: FuncInfo):
     R.floor("C18.c", "assignments to validated fields in the constructor hook", n, 1)
 
 
+def rule_d(ctx: Context, R: Reporter, cc: ClassInfo, v: FuncInfo):
+    """C18.d  configured values reach the components: wherever the core builds an
+    internal component, every constructor parameter that carries the name of a
+    configuration field is supplied explicitly and from that field (or from a
+    method of the core that reads it).  A parameter left to the component's own
+    default makes the validated option silently ineffective."""
+    fields = set(cc.fields())
+    n = 0
+    for fi in ctx.prog.functions.values():
+        if fi.name != "__init__" or fi.cls is None or fi.cls is cc:
+            continue
+        # the wiring function: a constructor that receives the configuration object
+        if not any(cc in [t for t in ctx.res.expr_types(fi, ast.Name(id=p, ctx=ast.Load())) if isinstance(t, ClassInfo)] for p in fi.params if p != "self"):
+            continue
+        flow = flow_of(fi.node)
+        for nd in flow.cfg.stmt_nodes():
+            for c in calls_in_node(nd):
+                tg = [t for t in ctx.res.call_targets(fi, c) if isinstance(t, ClassInfo)]
+                if len(tg) != 1 or tg[0] is cc:
+                    continue
+                ctor = ctx.prog.mro_lookup(tg[0], "__init__")
+                if ctor is None:
+                    continue
+                ps = [p for p in ctor.params if p != "self"]
+                for i, pn in enumerate(ps):
+                    if pn not in fields:
+                        continue
+                    n += 1
+                    arg = None
+                    if i < len(c.args):
+                        arg = c.args[i]
+                    for k in c.keywords:
+                        if k.arg == pn:
+                            arg = k.value
+                    if arg is None:
+                        R.check("C18.d", f"{tg[0].name}({pn}=...) is supplied from the configuration", False, fi, c,
+                                msg=f"{fi.short}: `{tg[0].name}(...)` is built without `{pn}`: the component falls back to its own default "
+                                    f"({unparse(ctor.param_default(pn)) if ctor.param_default(pn) is not None else 'none'}) and the configured `{pn}` has no effect",
+                                key=f"plumbing-missing:{tg[0].name}.{pn}")
+                        continue
+                    rx = ExprResolver(fi.node).resolve(arg, nd)
+                    reads = any(isinstance(x, ast.Attribute) and x.attr == pn and "config" in norm_text(x.value) for x in ast.walk(rx))
+                    if not reads and isinstance(rx, ast.Attribute) and isinstance(rx.value, ast.Name) and rx.value.id == "self":
+                        m = ctx.prog.mro_lookup(fi.cls, rx.attr)
+                        if m is not None and any(isinstance(x, ast.Attribute) and x.attr == pn and "config" in norm_text(x.value) for x in ast.walk(m.node)):
+                            reads = True
+                    R.check("C18.d", f"{tg[0].name}({pn}=...) is supplied from the configuration", reads, fi, c,
+                            msg=f"{fi.short}: `{tg[0].name}({pn}={unparse(rx)[:40]})` does not pass the configured `{pn}`", key=f"plumbing:{tg[0].name}.{pn}")
+    R.floor("C18.d", "component constructor parameters named like configuration fields", n, 12)
+
+
 def run(ctx: Context, R: Reporter):
     cc = config_class(ctx)
     v = validate_fn(ctx, cc)
     R.guard(rule_a, ctx, R, cc, v)
     R.guard(rule_b, ctx, R, cc, v)
     R.guard(rule_c, ctx, R, cc, v)
+    R.guard(rule_d, ctx, R, cc, v)
 
 
 def variants():
